@@ -77,7 +77,7 @@ def main(argv):
                 runs.append((('user', k, label), run(['user', str(k)])))
             for k, p, e in MM.enc_handler_count(pl):
                 if p['injected']:
-                    continue
+                    continue      # an injected port is obtained from the locator: its bindings are the provider's business (the mock runtime does not check them)
                 runs.append((('enc', k, f'component side of {p["name"]}.{"out" if e["out"] else "in"}.{e["name"]}'), run(['enc', str(k)])))
             return ci, tp, ('ran', ''), index, runs
         results = legb.parallel(work, jobs)
@@ -96,8 +96,14 @@ def main(argv):
                 elif who == 'none':
                     if not lines or not lines[0].startswith('OK parent=parent'):
                         problem = f'all events bound, but FinalConstruct did not succeed and record the parent: {lines[:2]}'
-                    elif mc and lines[1:] != ['LATE-REGISTRATION-REFUSED', 'KNOWN-CLIENT-OK']:
+                    elif mc and [l for l in lines[1:] if not l.startswith('AGAIN')] != ['LATE-REGISTRATION-REFUSED', 'KNOWN-CLIENT-OK']:
                         problem = f'after final construction of a multi-client port: {lines[1:]} (a new client must be refused, a registered one still served)'
+                    else:
+                        for l in lines[1:]:
+                            if l.startswith('AGAIN given='):
+                                given, recorded = l.split()[1].split('=')[1], l.split()[2].split('=')[1]
+                                if given != recorded:
+                                    problem = f'a repeated FinalConstruct({given if given != "null" else "nullptr"}) returned normally but the recorded parent is {recorded}'
                 else:
                     if not lines or not lines[0].startswith('EXC'):
                         problem = f'{label} was left unbound, but FinalConstruct returned normally: {lines[:2]}'
